@@ -503,7 +503,12 @@ class PyExec:
                     return Num([self.ctx.exp(RV(1))])
                 if attr in ("float64",):
                     return ("dtype", attr)
-                if attr in ("inf", "nan"):
+                if attr == "inf":
+                    # no real number: an unconstrained fresh value per occurrence (an unsat then holds whatever it is;
+                    # a sat is replayed on the real function, where it is a real inf)
+                    self.ctx._ninf = getattr(self.ctx, "_ninf", 0) + 1
+                    return Num([self.ctx.inp(f"i_inf{self.ctx._ninf}")])
+                if attr == "nan":
                     raise Unsupported(f"numpy.{attr}")
                 return ("npfunc", attr)
             if m == "jax":
